@@ -21,6 +21,8 @@ CUSTOMS = [
     ({"C+0": 2, "?": 8}, {"C+0": 2, "?": 8}),                                           # non-canonical charge
 ]
 DPROBES = [["[C]", "[=C]", "[#C]", "[N+1]", "[=O]", "[Fe]", "[=Fe]"],
+           # symbols of the old syntax: rejected unless compatible=True - whatever an earlier call did with them
+           ["[C]", "[C@@Hexpl]", "[N+expl]", "[Branch1_2]", "[C]", "[O]", "[Expl=Ring1]", "[C]", "[13CHexpl]"],
            # a non-index symbol in index position, then a two-symbol index reaching 18 atoms back
            ["[C]", "[C]", "[C]", "[Ring1]", "[F]", "."] + ["[C]"] * 20 + ["[Ring2]", "[Ring1]", "[Ring1]", "[O]", "[Branch2]", "[Foo2]"],
            ["[C]", "[NH4]", "[C]", "[OH3]", "[CH5]", "[C]"],          # hydrogen-rich atoms: in / out of the grammar depending on the table
@@ -76,7 +78,28 @@ def _norm_table(obs):
     return dict(obs) if isinstance(obs, dict) else {}
 
 
-def replay_history(sf, hist, customs, dprobes, eprobes):
+class _ZeroDict(dict):
+    """a dict subclass with a __missing__ hook: as a constraint table it means what the plain dict means"""
+    def __missing__(self, key):
+        return 0
+
+
+def _make_table(kind, items):
+    """The same table handed to the library as different mapping types (the specification's table is the
+    mapping itself, not the Python class it arrives in)."""
+    import collections
+    if kind == 1:
+        return collections.defaultdict(int, items)
+    if kind == 2:
+        return collections.OrderedDict(reversed(list(items.items())))
+    if kind == 3:
+        return _ZeroDict(items)
+    if kind == 4:
+        return collections.defaultdict(lambda: 1, items)
+    return dict(items)
+
+
+def replay_history(sf, hist, customs, dprobes, eprobes, kind=0):
     """Replays one specification history into the library; returns (step index, message, via_set_mutation) or None."""
     sf.set_semantic_constraints("default")
     objs = {}
@@ -93,7 +116,7 @@ def replay_history(sf, hist, customs, dprobes, eprobes):
                 if got != obs["t"]:
                     return n, "set_semantic_constraints(%r): %s, specification %s" % (arg, got, obs["t"]), set_mutated
             elif op == "new_dict":
-                objs[arg[1]] = dict(customs[arg[0] - 1][1])
+                objs[arg[1]] = _make_table(kind, customs[arg[0] - 1][1])
             elif op == "set_custom":
                 try:
                     sf.set_semantic_constraints(objs[arg])
@@ -129,6 +152,11 @@ def replay_history(sf, hist, customs, dprobes, eprobes):
                     o.discard("[C]")
                     o.discard("[=C]")
                     set_mutated = True
+            elif op == "decode_compat":
+                kind, val = de.call_decoder("".join(dprobes[arg - 1]), True)
+                if (kind, val) != (obs["kind"], obs["value"]):
+                    return n, "decoder(%r, compatible=True) = %s %r, specification %s %r" % (
+                        "".join(dprobes[arg - 1]), kind, val, obs["kind"], obs["value"]), set_mutated
             elif op == "decode":
                 kind, val = de.call_decoder("".join(dprobes[arg - 1]))
                 if (kind, val) != (obs["kind"], obs["value"]):
@@ -166,7 +194,7 @@ def _replay_chunk(args):
     out = []
     try:
         for i, h in hists:
-            r = replay_history(sf, h, customs, dprobes, eprobes)
+            r = replay_history(sf, h, customs, dprobes, eprobes, kind=(i % 7 if i % 7 < 5 else 0))
             if r is not None:
                 out.append((i, r))
     finally:
@@ -183,13 +211,14 @@ def replay_histories(rep, hists, customs, dprobes, eprobes):
     for i, (n, msg, via_set) in res:
         hist = hists[i]
         f = [x for x in rep.findings if x.get("signature") == "api:mutation-of-returned-robust-alphabet-visible-to-later-calls"]
-        if rep.pid == "C11" and hist[n]["op"] not in ("decode", "encode", "encode_strict"):
+        if rep.pid == "C11" and hist[n]["op"] not in ("decode", "decode_compat", "encode", "encode_strict"):
             continue        # C11 is about translation results; the configuration getters belong to C12
         if via_set and hist[n]["op"] == "get_alphabet" and f:
             rep.known(f[0]["id"], f[0]["what"][:300])
             continue
-        rep.violation("history step %d: %s; history: %s" % (n + 1, msg, [(h["op"], h["arg"]) for h in hist[: n + 1]]),
-                      {"history": hist, "failing_step": n + 1, "message": msg})
+        rep.violation("history step %d: %s; history: %s%s" % (n + 1, msg, [(h["op"], h["arg"]) for h in hist[: n + 1]],
+                                                            "" if i % 7 in (0, 5, 6) else " (custom tables passed as %s)" % type(_make_table(i % 7, {})).__name__),
+                      {"history": hist, "failing_step": n + 1, "message": msg, "table_kind": (i % 7 if i % 7 < 5 else 0)})
     return res
 
 
